@@ -55,6 +55,12 @@ func (e *Ext) seq0(v ssa.Value) []Atom {
 		}
 	case *ssa.Extract:
 		if call, ok := x.Tuple.(*ssa.Call); ok && x.Index == 0 {
+			if prove.StaticName(call.Common()) == "encoding/binary.Append" && len(call.Common().Args) == 3 {
+				// binary.Append(buf, order, data): buf followed by the fixed-size image of data
+				if img := e.binaryImage(call.Common().Args[2], call.Common().Args[1], call.Pos()); img != nil {
+					return append(append([]Atom(nil), e.Seq(call.Common().Args[0])...), img...)
+				}
+			}
 			return e.seqProducer(call, x.Pos())
 		}
 	case *ssa.Phi:
@@ -1076,4 +1082,195 @@ func (e *Ext) fixedAtoms(v ssa.Value, w int, order string, pos token.Pos) []Atom
 		out = append(out, Atom{Kind: "fixed", Width: p.width, Order: o, Field: f, Expr: ex, Type: tstr(ft), Pos: pos})
 	}
 	return out
+}
+
+// binaryImage: the bytes encoding/binary writes for `data` (the argument of
+// binary.Append / binary.Write) in byte order `order`: a fixed-size integer, or a
+// struct / pointer to struct whose fields are laid out in declaration order with
+// their fixed widths and no padding (documented contract of the package). The
+// struct is either a receiver field (atoms named after its fields) or a local
+// variable whose fields were assigned from receiver fields. nil when not read.
+func (e *Ext) binaryImage(data, order ssa.Value, pos token.Pos) []Atom {
+	ord := ""
+	if g := loadedGlobalName(order); g == "encoding/binary.LittleEndian" {
+		ord = "LE"
+	} else if g == "encoding/binary.BigEndian" {
+		ord = "BE"
+	} else {
+		return nil
+	}
+	if mi, ok := data.(*ssa.MakeInterface); ok {
+		data = mi.X
+	}
+	// the struct's storage: &local, a load of a struct-typed location, or &recv.F
+	var addr ssa.Value
+	switch x := data.(type) {
+	case *ssa.Alloc, *ssa.FieldAddr:
+		addr = x
+	case *ssa.UnOp:
+		if x.Op == token.MUL {
+			addr = x.X
+		}
+	}
+	if addr == nil {
+		return nil
+	}
+	st, ok := deref(addr.Type()).Underlying().(*types.Struct)
+	if !ok {
+		return nil
+	}
+	var out []Atom
+	// (a) a struct that lives in the receiver
+	if base, ok := e.FieldPath(addr); ok {
+		for i := 0; i < st.NumFields(); i++ {
+			f := st.Field(i)
+			name := f.Name()
+			if base != "" {
+				name = base + "." + name
+			}
+			a, ok := imageAtom(f.Type(), name, ord, pos)
+			if !ok {
+				return nil
+			}
+			out = append(out, a)
+		}
+		return out
+	}
+	// (b) a local struct: each field holds what was stored into it
+	al, ok := addr.(*ssa.Alloc)
+	if !ok || al.Referrers() == nil {
+		return nil
+	}
+	src := al
+	// block := T{…} is built in a temporary and copied whole
+	for _, r := range *al.Referrers() {
+		if stt, isSt := r.(*ssa.Store); isSt && stt.Addr == ssa.Value(al) {
+			if ld, isLd := stt.Val.(*ssa.UnOp); isLd && ld.Op == token.MUL {
+				if t, isA := ld.X.(*ssa.Alloc); isA {
+					src = t
+				}
+			}
+		}
+	}
+	fieldVal := map[int]ssa.Value{}
+	fieldCopy := map[int]ssa.Value{} // copy(local.F[:], x)
+	for _, holder := range []*ssa.Alloc{src, al} {
+		if holder.Referrers() == nil {
+			continue
+		}
+		for _, r := range *holder.Referrers() {
+			fa, isFA := r.(*ssa.FieldAddr)
+			if !isFA || fa.Referrers() == nil {
+				continue
+			}
+			for _, rr := range *fa.Referrers() {
+				switch y := rr.(type) {
+				case *ssa.Store:
+					if y.Addr == ssa.Value(fa) {
+						fieldVal[fa.Field] = y.Val
+					}
+				case *ssa.Slice:
+					if y.Referrers() == nil {
+						continue
+					}
+					for _, r3 := range *y.Referrers() {
+						if call, isC := r3.(*ssa.Call); isC {
+							if b, isB := call.Call.Value.(*ssa.Builtin); isB && b.Name() == "copy" && call.Call.Args[0] == ssa.Value(y) {
+								fieldCopy[fa.Field] = call.Call.Args[1]
+							}
+						}
+					}
+				}
+			}
+		}
+	}
+	for i := 0; i < st.NumFields(); i++ {
+		f := st.Field(i)
+		w, isArr := imageWidth(f.Type())
+		if w == 0 {
+			return nil
+		}
+		switch {
+		case fieldCopy[i] != nil:
+			sub := e.Seq(fieldCopy[i])
+			if len(sub) != 1 {
+				return nil
+			}
+			a := sub[0]
+			a.Pos = pos
+			if a.Width == 0 {
+				a.Width = w
+			}
+			out = append(out, a)
+		case fieldVal[i] != nil:
+			fn, ex, ft := e.ValueSrc(fieldVal[i])
+			if isArr {
+				out = append(out, Atom{Kind: "bytes", Width: w, Field: fn, Expr: ex, Type: tstr(ft), Pos: pos})
+			} else {
+				o := ord
+				if w == 1 {
+					o = ""
+				}
+				out = append(out, Atom{Kind: "fixed", Width: w, Order: o, Field: fn, Expr: ex, Type: tstr(ft), Pos: pos})
+			}
+		default:
+			out = append(out, Atom{Kind: "pad", Width: w})
+		}
+	}
+	return out
+}
+
+// imageWidth: bytes encoding/binary writes for a value of type t (0 if t is not
+// a fixed-size integer or byte array); isArr for a byte array.
+func imageWidth(t types.Type) (int, bool) {
+	switch u := t.Underlying().(type) {
+	case *types.Basic:
+		if u.Info()&types.IsInteger != 0 && u.Kind() != types.Int && u.Kind() != types.Uint && u.Kind() != types.Uintptr {
+			return elemWidth(t), false
+		}
+	case *types.Array:
+		if b, ok := u.Elem().Underlying().(*types.Basic); ok && (b.Kind() == types.Uint8 || b.Kind() == types.Int8) {
+			return int(u.Len()), true
+		}
+	}
+	return 0, false
+}
+
+func imageAtom(t types.Type, name, ord string, pos token.Pos) (Atom, bool) {
+	w, isArr := imageWidth(t)
+	if w == 0 {
+		return Atom{}, false
+	}
+	if isArr {
+		return Atom{Kind: "bytes", Width: w, Field: name, Pos: pos}, true
+	}
+	if w == 1 {
+		ord = ""
+	}
+	return Atom{Kind: "fixed", Width: w, Order: ord, Field: name, Type: types.TypeString(t, shortQ), Pos: pos}, true
+}
+
+// loadedGlobalName: v is (a load / interface wrapping of) a package-level variable; its qualified name.
+func loadedGlobalName(v ssa.Value) string {
+	for d := 0; d < 4; d++ {
+		switch x := v.(type) {
+		case *ssa.MakeInterface:
+			v = x.X
+		case *ssa.ChangeInterface:
+			v = x.X
+		case *ssa.UnOp:
+			if g, ok := x.X.(*ssa.Global); ok && g.Pkg != nil {
+				return g.Pkg.Pkg.Path() + "." + g.Name()
+			}
+			return ""
+		case *ssa.Global:
+			if x.Pkg != nil {
+				return x.Pkg.Pkg.Path() + "." + x.Name()
+			}
+			return ""
+		default:
+			return ""
+		}
+	}
+	return ""
 }
